@@ -711,3 +711,57 @@ def tcrlev_pdist(rng):
     for _ in range(300):
         m, cls = _tcr_metric(rng)
         yield {"self": m, "instances": _tcr_table(rng, rng.choice(layouts), rng.randint(0, 4))}
+
+
+# ---- C13
+def _grouped_table(rng, extra_key=False, n=None):
+    n = rng.randint(2, 9) if n is None else n
+    seqs = ["CASSF", "CASSL", "CAVSF", "CASSF", "CATTF", "CASSLF", "CAAAF"]
+    d = {"g": [rng.choice(["x", "y", "z"]) for _ in range(n)], "h": [rng.choice(["p", "q"]) for _ in range(n)],
+         "a": [rng.choice(seqs) for _ in range(n)], "b": [rng.choice(seqs[:3]) for _ in range(n)]}
+    return py(f"pd.DataFrame({d!r})")
+
+
+@scope("pcdelta_grouped_calls")
+def pcdelta_grouped_calls(rng):
+    for _ in range(150):
+        kw = rng.choice([{}, {"bins": I(0)}, {"bins": py("np.arange(0, 6)")}, {"bins": py("np.arange(0, 8)"), "pseudocount": R(0.5)}])
+        yield {"df": _grouped_table(rng), "by": rng.choice([{"t": "const", "v": "g"}, {"t": "const", "v": ["g", "h"]}]),
+               "seq_columns": {"t": "const", "v": "a"}, "kwargs": {"t": "dict", "items": kw}}
+
+
+@scope("pc_conditional_calls")
+def pc_conditional_calls(rng):
+    for _ in range(300):
+        rec = {"df": _grouped_table(rng), "by": rng.choice([{"t": "const", "v": "g"}, {"t": "const", "v": ["g"]}, {"t": "const", "v": ["g", "h"]}]),
+               "on": rng.choice([{"t": "const", "v": "a"}, {"t": "const", "v": ["a", "b"]}]), "group_weights": NONE}
+        yield rec
+
+
+@scope("renyi2_calls")
+def renyi2_calls(rng):
+    for _ in range(200):
+        yield {"df": _grouped_table(rng), "features": rng.choice([{"t": "const", "v": "a"}, {"t": "const", "v": ["a", "b"]}]),
+               "by": rng.choice([NONE, {"t": "const", "v": "g"}, {"t": "const", "v": ["g"]}]),
+               "base": rng.choice([NONE, R(2.0), R(10.0), R(0.5), R(-1.0), R(0.0)]), "kwargs": {"t": "dict", "items": {}}}
+
+
+@scope("stdrenyi2_calls")
+def stdrenyi2_calls(rng):
+    for _ in range(200):
+        yield {"df": _grouped_table(rng, n=rng.randint(4, 10)), "features": rng.choice([{"t": "const", "v": "a"}, {"t": "const", "v": ["a", "b"]}]),
+               "base": rng.choice([NONE, R(2.0), R(10.0), R(-1.0)]), "kwargs": {"t": "dict", "items": {}}}
+
+
+@scope("grouped_cross_calls")
+def grouped_cross_calls(rng):
+    for _ in range(300):
+        yield {"df": _grouped_table(rng, n=rng.randint(3, 10)), "by": {"t": "const", "v": "g"},
+               "on": rng.choice([{"t": "const", "v": "a"}, {"t": "const", "v": ["a", "b"]}])}
+
+
+@scope("pcdelta_cross_calls")
+def pcdelta_cross_calls(rng):
+    for _ in range(300):
+        yield {"df": _grouped_table(rng, n=rng.randint(4, 10)), "by": {"t": "const", "v": "g"}, "seq_columns": {"t": "const", "v": "a"},
+               "condensed": {"t": "const", "v": rng.random() < 0.3}, "kwargs": {"t": "dict", "items": {"bins": I(0)}}}
